@@ -30,6 +30,7 @@ structure XS where
   wfr : Bool := false
   itemsSized : Bool := false
   returned : Bool := false
+  direct : Bool := false   -- no sending queue, no batcher: no obsQueue, every Send passes obsReportSender once
   tevs : List OtelVerif.C03.Replay.TEv := []
 
 def expHandler : Handler XS where
@@ -40,6 +41,7 @@ def expHandler : Handler XS where
       match kvNat rest "persistent", kvNat rest "queue", kvNat rest "wfr" with
       | some p, some q, some w =>
         ({ s with persistent := p == 1, batch := (kvNat rest "batch").getD 0, wrap := kvNat rest "wrap" == some 1,
+                  direct := q == 0 && (kvNat rest "batch").getD 0 == 0,
                   consumers := (kvNat rest "consumers").getD 1, retry := kvNat rest "retry" == some 1,
                   wfr := w == 1 || q == 0, itemsSized := kv rest "sizer" == some "items" && q == 1 }, [])
       | _, _, _ => (s, ["obs bad-op"])
@@ -106,14 +108,15 @@ def expHandler : Handler XS where
     | some b => [s!"obs unparsable {b}", s!"prop exporter=FAIL sig=C19/exporter/unparsable {b}"]
     | none =>
       let t := s.evs.reverse
-      let p := OtelVerif.C19.predict t
+      let p0 := OtelVerif.C19.predict t
+      let p := if s.direct then { p0 with enqFailed := 0 } else p0
       let obs := s!"obs counters sent={p.sent} failed={p.failed} enq={p.enqFailed}"
       let attempted : Nat → Bool := fun x => (OtelVerif.C19.callsOf t).any (fun c => c.2.contains x)
       let given := (t.map (fun e => match e with | .acc is => is.length | .rej is => is.length | _ => 0)).sum
       let stuckLate := if s.persistent then 0 else ((s.lateAcc.flatMap id).filter (fun x => !attempted x)).length
       let stored := if s.persistent then s.stored.length else 0
       let dblKept := if s.persistent then (s.stored.filter attempted).length else 0
-      let dblWfr := ((t.flatMap (fun e => match e with | .rej is => is | _ => [])).filter attempted).length
+      let dblWfr := if s.direct then 0 else ((t.flatMap (fun e => match e with | .rej is => is | _ => [])).filter attempted).length
       let pBal := match s.impl with
         | none => "prop balance=FAIL sig=C19/exporter/no-counters"
         | some (a, b, c) =>
@@ -134,7 +137,7 @@ def expHandler : Handler XS where
       -- counters as functions of the LTS state reached by replaying the trace through `fire` (sentOf / failedOf / enqFailedWfrOf)
       let batching := s.batch != 0
       let pLts :=
-        if !s.returned || (batching && !s.wrap) then "prop lts=skipped" else
+        if !s.returned || (batching && !s.wrap) || s.direct then "prop lts=skipped" else
         let tr := s.tevs.reverse
         let rc : OtelVerif.C03.Replay.RCfg :=
           { cfg := { persistent := s.persistent, batching := batching, retry := s.retry, wfr := s.wfr, itemsSized := s.itemsSized }
@@ -158,7 +161,7 @@ def expHandler : Handler XS where
       -- the model's `qsize` (released by `completedBy`, i.e. when every piece of a request has ended its flight) plus the
       -- requests that sit in the real queue but that the lazy replay has not enqueued yet
       let pGaugeLts :=
-        if s.persistent || (batching && !s.wrap) then "prop gaugelts=skipped" else
+        if s.persistent || (batching && !s.wrap) || s.direct then "prop gaugelts=skipped" else
         match s.gauges.head? with
         | some (sz, _, some _, _) =>
           let tr := s.tevs.reverse
